@@ -24,7 +24,7 @@ from typing_extensions import Self, TypeAlias
 
 from .errors import ConvertError, UnsupportedAnnotation
 from .addons import numpy as numpy
-from .util import key_cache
+from .util import key_cache, _subscript
 
 if t.TYPE_CHECKING:
     from .converters import Converter
@@ -205,7 +205,8 @@ def make_converter(ty: IntoConverter, handlers: ConverterHandlers = ConverterHan
             var_ty = ty.__constraints__
         elif len(ty.__constraints__) > 1:
             # typevar with multiple constraints
-            var_ty = t.Union[ty.__constraints__]  # type: ignore
+            # (not `t.Union[...]`: typing may hand back an equal union made earlier, with other member orders inside)
+            var_ty = _subscript(None, t.Union, tuple(ty.__constraints__))
         else:
             # unbound typevar
             var_ty = t.Any  # type: ignore
